@@ -839,7 +839,7 @@ func (c *concCase) phaseCheck(byPhaseName map[string][]*concCall) {
 						c.viol("conc:no-upstream-query-after-expiry", ex, "phase %d at second %d: %d Resolve(%s) calls succeeded without any upstream %s query although no answer within its TTL was cached (valid until second %d)", p, ph.Clock, ok, name, qnames[k], d.until)
 					case tau == 0 && q[k] < ok:
 						c.viol("conc:ttl0-answer-served-from-cache", ex, "phase %d: %d successful Resolve(%s) calls but only %d upstream %s queries although every record has TTL 0", p, ok, name, q[k], qnames[k])
-					case q[k] > len(calls):
+					case q[k] > 3*len(calls): // one call may repeat a query that failed; three times as many queries as calls is a storm
 						c.viol("conc:more-upstream-queries-than-calls", ex, "phase %d: %d upstream %s queries for %d Resolve(%s) calls", p, q[k], qnames[k], len(calls), name)
 					}
 					if tau == 0 {
